@@ -580,7 +580,7 @@ def finish_expand(spec, w, infos, taplog, stats):
         with_blocks = []
         for it in items:
             while RB.chance(20):
-                with_blocks.append(("blk", RB.choice(["nrb", "isb", "custom", "custom_nocopy", "unknown"]), RB.bits(30)))
+                with_blocks.append(("blk", RB.choice(["nrb", "isb", "custom", "custom_nocopy", "unknown", "idb2"]), RB.bits(30)))
             with_blocks.append(it)
         with_blocks.append(("blk", "isb", RB.bits(30)))
         items_out = with_blocks
